@@ -629,6 +629,10 @@ def mutators_for(case, x, y=None):
             return True
 
         def ortho(o, s):
+            # after "components = <arbitrary rows>" an increment can leave more components than features (the update
+            # assumes orthonormal eigenvectors): orthonormalising those is impossible, not a copy matter
+            if o.n_components > o.n_features:
+                return False
             o.orthonormalize_inplace()
             return True
 
@@ -636,6 +640,8 @@ def mutators_for(case, x, y=None):
             # documented domain: an other model with fewer components than features (plain linear models: the component
             # counts must add up to at most n_features, else the documented ValueError); a PCA model may lose components
             f, k = o.n_features, o.n_components
+            if k > f:
+                return False
             pca = kind.startswith("PCA")
             k2 = 1 + s % 2
             if (not pca and k + k2 > f) or k2 >= f:
